@@ -26,6 +26,25 @@ def num(x):
     return Fraction(float(x))
 
 
+# what a flat observation holds in place of a stored value that is not a finite number (an interval where a number
+# belongs, an object of a foreign class, nan, ...): no model value is close to it, so the correspondence disagrees
+# on that case instead of the harness crashing
+NOT_A_NUMBER = Fraction(-987654321, 1000)
+
+
+def num_or_marker(x):
+    try:
+        if isinstance(x, (bool, np.bool_, int, np.integer)):
+            return Fraction(int(x))
+        if isinstance(x, Fraction):
+            return x
+        if isinstance(x, (float, np.floating)) and math.isfinite(float(x)):
+            return Fraction(float(x))
+    except Exception:  # noqa
+        pass
+    return NOT_A_NUMBER
+
+
 def cq(x):
     return qq(num(x))
 
@@ -97,7 +116,7 @@ def state_parts(st):
     for k in st.attributes:
         if k in ("time_step", "position", "orientation") or (vec is not None and k in ("velocity", "velocity_y")):
             continue
-        v = getattr(st, k)
+        v = getattr(st, k, None)
         if v is None:
             continue
         if isinstance(v, Interval):  # also AngleInterval
@@ -105,8 +124,8 @@ def state_parts(st):
         elif isinstance(v, (int, float, np.number, bool, np.bool_)):
             rest.append(v)
         else:
-            raise TypeError(f"state attribute {k} of type {type(v)}")
-    return int(ts), pos, ori, vec, rest
+            rest.append(NOT_A_NUMBER)  # a value of a foreign type: never equal to the model's payload
+    return (int(ts) if is_num(ts) else 0), pos, ori, vec, rest
 
 
 def c_state(st):
@@ -121,26 +140,38 @@ def c_state(st):
         o = "None"
     elif isinstance(ori, AngleInterval):
         o = f"(Some (OItv (Build_itv {cq(ori.start)} {cq(ori.end)})))"
-    else:
+    elif is_num(ori):
         o = f"(Some (OExact {cq(ori)}))"
+    else:
+        raise TypeError(f"input state with an orientation of type {type(ori).__name__}")
     return f"(Build_state {qz(ts)} {p} {o} {copt(vec, cpt)} {qlist([cq(x) for x in rest])})"
 
 
 def f_state(st):
+    """flat observation of a state in the order of [atoms_state]; robust against values of unexpected types in a
+    *transformed* state (they are what a broken translate_rotate may leave behind): a position that is neither a
+    point nor a shape gets the tag 5, an orientation that is an interval but not an AngleInterval the tag 3, anything
+    else the tag 4 - tags the model never produces, so the case disagrees"""
     ts, pos, ori, vec, rest = state_parts(st)
     out = [ts]
     if pos is None:
         out.append(0)
     elif isinstance(pos, Shape):
         out += [1, 2] + f_shape(pos)
-    else:
+    elif isinstance(pos, np.ndarray) and pos.shape == (2,):
         out += [1, pos[0], pos[1]]
+    else:
+        out += [5]
     if ori is None:
         out.append(0)
-    elif isinstance(ori, AngleInterval):
-        out += [1, ori.start, num(ori.end) - num(ori.start)]
-    else:
+    elif isinstance(ori, Interval):
+        # (start, length, end): the ends are compared modulo 2pi and must lie inside [-2pi, 2pi] (Corr/C05.v [FR])
+        out += [1 if isinstance(ori, AngleInterval) else 3, ori.start, num_or_marker(ori.end) - num_or_marker(ori.start),
+                ori.end]
+    elif is_num(ori):
         out += [1, ori]
+    else:
+        out += [4]
     out += [0] if vec is None else [1, vec[0], vec[1]]
     return out + list(rest)
 
@@ -248,7 +279,7 @@ def f_ppset(pps):
 
 
 def c_flat(xs):
-    return qlist([qq(num(x)) for x in xs])
+    return qlist([qq(num_or_marker(x)) for x in xs])
 
 
 # ------------------------------------------------------------------------------------ edge streams
